@@ -14,14 +14,19 @@ from vsg import parser, rule_list, severity
 
 from .. import base, corpus, drivers, explore, report, universe
 from . import common
+from .c18 import map_fingerprint
 
 PROP = "C06"
 KQ = ("NL", "CE")
 KT = KQ + ("J", "W3", "CO", "BL", "CD", "NLI")
 
 
+def index_canon(oFile):
+    return base.h64(sorted((b, s, tuple(l)) for b, d in oFile.oTokenMap.dMap.items() for s, l in d.items() if l))
+
+
 def canon(oFile):
-    out = []
+    out = [index_canon(oFile)]  # the lookup index is part of the state every rule reads
     for t in oFile.lAllObjects:
         d = t.__dict__
         out.append((type(t).__qualname__, type(t).__module__, tuple((k, repr(v)) for k, v in sorted(d.items()))))
@@ -102,12 +107,13 @@ def analysis_pass(lines, item, order="forward", first=None, skip=None, detect=Fa
         for r in rules:
             bar.rule = r.unique_id
             nh = len(bar.hits)
+            fp0 = map_fingerprint(oFile.oTokenMap.dMap) if detect else None
             r.analyze(oFile)
             V[r.unique_id] = vio(r)
             n += 1
             if detect:
                 seg.append(r.unique_id)
-                if len(bar.hits) > nh or oFile.lAllObjects != snap:
+                if len(bar.hits) > nh or oFile.lAllObjects != snap or map_fingerprint(oFile.oTokenMap.dMap) != fp0:
                     tok_ids = None
                     c1 = canon(oFile)
                     if c1 != last_c:
@@ -269,7 +275,7 @@ def main(tier):
     muts = sorted(m.extra.get("mutators", ()))
     return report.finish(
         PROP, tier, "model_checking", [m], t0,
-        "per input: node = canonical hash of every attribute of every token; edges = analyze(r) for each enabled rule on fresh objects (forward pass with a write barrier on parser.item, "
+        "per input: node = canonical hash of every attribute of every token and of the lookup index; edges = analyze(r) for each enabled rule on fresh objects (forward pass with a write barrier on parser.item, "
         "identity check of the token list and a full canonical hash every 64 edges); reverse-order pass; repeat on the same objects; for each mutating edge a pass with that rule first and a pass "
         "without it; subsets D (each reporting rule, each phase) where marked; PYTHONHASHSEED 1 and 2 in separate interpreters; non-trivial = inputs with at least one reporting rule",
         ["closure argument: if no analyze edge changes the canonical state the reachable set is a single node, so every order and every subset yields the same per-rule reports",
